@@ -42,6 +42,9 @@ CLAIMS = {
  "C15": ("constant capacity of every watcher channel and non-blocking send shape of notify; dominance of notify by the install of the same name inside one critical section; value-flow of the registered watcher's handle and of NewUpdater's initial read; lock-set discipline on Updater fields; edge-dominance and load/store ordering of rebuild, Close and err in Updater.Get",
          "Structural necessary conditions, decided on all paths: notifications are level-triggered (buffered >= 1, never blocking), sent only after the new value is installed and under the same lock, for the watchers of that name; a watcher wraps the live handle of the name it is registered under and an updater's first value is read after registration; Updater state is guarded by its mutex; Get rebuilds only when signalled, replaces and closes only on success, closes only the previous value and at most once, always records the outcome, and returns the field's current value. Does not decide sequences of values over histories.",
          "buffered channel + non-blocking send keeps one pending notification", "4/C15"),
+ "C10": ("edge-dominance and assumption-pruned reachability of the Store's construction (validation first); cycle-must-contain with verified waiter summaries and finite-iteration back edges excluded; must-pass-through of the ctx.Err() test after a failed fetch; interval reasoning on the loop-carried back-off (phi sources, doubling under v < C); phi-edge analysis of the missing counter; edge-dominance by the file-client type test",
+         "Structural necessary conditions, decided on all paths: the Store is built only from a validated configuration and every declared name is checked for emptiness; every retry round passes a wait that blocks on the context or a timer; after a failed fetch the context is consulted before anything else and a dead context returns an error; the pause stays below 2C <= 10 s; only missing names are fetched, a success installs the value before moving on, every failure is counted, and nil is returned only when nothing is missing; a file-backed client never waits. Does not decide wall-clock promptness.",
+         "time.After(d) fires after d; iteration over a finite collection terminates", "4/C10"),
  "C03": ("typestate on SSA CFG paths (mutation => save => tested error before any return), value-flow of the bytes handed to the file writer, edge-dominance on the open path, JSON wire-signature computed from go/types against the frozen v1 signature, reader/writer sibling agreement",
          "Structural necessary conditions, decided on all paths: no mutator of the persistent state can return without having called the file-writing save and tested its error; what is saved is the live map, wrapped as documented; opening writes only when the file does not exist; the v1 wire layout (keys, encodings, AEAD contexts, key template, schema constant) is unchanged and reader and writer agree. Does not decide state equality after arbitrary histories nor decoding of real old files.",
          "encoding/json encodes according to the computed shape; tink keyset reader/writer are inverse; the v1 layout is the one documented on db.kv", "4/C03"),
